@@ -529,6 +529,14 @@ history!(air2_surf_aab, 8, [(false, A), (false, A), (true, B)]);
 history!(surf2_aa, 8, [(true, A), (true, A)]);
 history!(air_surf_air_aaa, 8, [(false, A), (true, A), (false, A)]);
 history!(surf_air_surf_aaa, 8, [(true, A), (false, A), (true, A)]);
+// deeper shapes (thorough tier)
+history!(air4_aabb, 8, [(false, A), (false, A), (false, B), (false, B)]);
+history!(air4_abba, 8, [(false, A), (false, B), (false, B), (false, A)]);
+history!(air3_surf_aaaa, 8, [(false, A), (false, A), (false, A), (true, A)]);
+history!(air2_surf_air_aaaa, 8, [(false, A), (false, A), (true, A), (false, A)]);
+history!(air_surf2_aaa, 8, [(false, A), (true, A), (true, A)]);
+history!(surf_air2_aaa, 8, [(true, A), (false, A), (false, A)]);
+history!(air_surf_air_aba, 8, [(false, A), (true, B), (false, A)]);
 
-registry!(air2_aa, air3_aaa, air3_aba, air3_aab, air3_abb, air4_aaaa, air4_abab, air2_surf_aaa, air2_surf_aab, surf2_aa, air_surf_air_aaa, surf_air_surf_aaa);
+registry!(air4_aabb, air4_abba, air3_surf_aaaa, air2_surf_air_aaaa, air_surf2_aaa, surf_air2_aaa, air_surf_air_aba, air2_aa, air3_aaa, air3_aba, air3_aab, air3_abb, air4_aaaa, air4_abab, air2_surf_aaa, air2_surf_aab, surf2_aa, air_surf_air_aaa, surf_air_surf_aaa);
 
